@@ -461,6 +461,49 @@ def is_complete(fr):
     return len(fr) >= 4 and int.from_bytes(fr[1:4], "big") == len(fr)
 
 
+def value_position_sweeps(eng, tier):
+    """one-AVP frames in which an interesting octet sequence sits at EVERY position of a variable-length value: a validator
+    that looks at a string word by word, or only at its head, or stops early, is wrong at specific lengths and offsets only.
+    UTF8String and DiameterIdentity: ill-formed sequences (stray continuation, overlong, surrogate, > U+10FFFF, truncated,
+    0xff) and well-formed multi-octet characters inside ASCII text; Address: every family/length combination around the
+    legal ones.  Returns (kind, dictid, frame, must_accept)."""
+    g = eng.dicts["g"]
+    by = {}
+    for d in g.live():
+        if d["vendor"] is None and 1000 <= d["code"] < 1100:
+            by.setdefault(d["ty"], d)
+
+    def frame(code, data):
+        ln = 8 + len(data)
+        body = gen.be(code, 4) + bytes([0x40]) + gen.be(ln, 3) + data + b"\0" * ((4 - ln % 4) % 4)
+        return bytes([1]) + gen.be(20 + len(body), 3) + bytes([0x80]) + gen.be(272, 3) + gen.be(4, 4) + gen.be(1, 4) + gen.be(2, 4) + body
+    out = []
+    bad = [b"\x80", b"\xc0\xaf", b"\xed\xa0\x80", b"\xf4\x90\x80\x80", b"\xe2\x82", b"\xff"]
+    good = ["é".encode(), "€".encode(), "\U00010000".encode()]
+    lengths = list(range(1, 26)) + [31, 32, 33, 63, 64, 65] + ([127, 128, 129, 255, 256, 257] if tier == "thorough" else [])
+    for ty in ("utf", "id"):
+        code = by[ty]["code"]
+        for L in lengths:
+            positions = range(L) if L <= 33 else sorted(set(list(range(0, 10)) + list(range(L - 10, L)) + [p for p in range(L) if p % 8 in (0, 7)]))
+            for p in positions:
+                for k, seq in enumerate(bad + good):
+                    if p + len(seq) > L and k != 4:
+                        continue
+                    seq2 = seq[: L - p]
+                    body = b"a" * p + seq2 + b"b" * (L - p - len(seq2))
+                    ok = k >= len(bad) and len(seq2) == len(seq)
+                    out.append(("utf8-at-every-position", "g", frame(code, body), ok))
+    a = by["addr"]["code"]
+    for fam in (0, 1, 2, 3, 8, 255, 256, 0xffff):
+        for n in list(range(0, 20)) + [32, 33]:
+            data = gen.be(fam, 2) + bytes((0x30 + (i % 10)) for i in range(n))
+            legal = (fam == 1 and n == 4) or (fam == 2 and n == 16) or (fam == 8)
+            out.append(("address-family-length", "g", frame(a, data), False if not legal else (fam != 8 or 1 <= n <= 15)))
+    for n in (0, 1):
+        out.append(("address-family-length", "g", frame(a, bytes(n)), False))
+    return out
+
+
 def check_C03(chk, tier, seed):
     rng = Rng(seed).fork("C03")
     eng = engine_codec.setup(chk, rng)
@@ -471,6 +514,7 @@ def check_C03(chk, tier, seed):
     fam = frame_families(rng, eng, frames, 20 if tier == "quick" else 60, thorough=(tier == "thorough" and False))
     fam += [("regress", c.split()[1], bytes.fromhex(c.split()[2][1:]), False) for c in regress_cases("C03") if c.startswith("X ")]
     fam += [("display-stress", did, f, True) for did, f in display_stress_frames(eng)]
+    fam += value_position_sweeps(eng, tier)
     cases = [f"X {did} {xb(f)}" for (_, did, f, _) in fam]
     impl, model = eng.run(cases)
     # oracle: is the returned tree the one the octets denote, and what is its reference encoding
@@ -527,7 +571,9 @@ def check_C03(chk, tier, seed):
             chk.sample(dict(case=c, kind=kind, impl=short(im, 120), P=ok))
     chk.rule = (f"{len(frames)} reference-encoded corpus frames; per frame: as is, 3 rewrites of padding octets/reserved bits (must be accepted, same tree), "
                 "length-field rewrites (message, AVP, nested AVP: 0..64, true+-{1,2,3,4,8}, 2^24-1 ...), structure-aware lies, havoc, truncations, "
-                "random octets; accepted complete frames judged by the extracted checker chk_msg + reference encoder; non-trivial = longer than the header")
+                "random octets; one-AVP frames with ill-formed and well-formed UTF-8 sequences at EVERY offset of strings of 1..33, 63..65 octets (UTF8String and "
+                "DiameterIdentity) and every Address family x length combination around the legal ones; accepted complete frames judged by the extracted checker "
+                "chk_msg + reference encoder; non-trivial = longer than the header")
     chk.assumptions = ["KF-1 (fixed-size types ignore the declared length) is a recorded finding: cases in that class are counted, not reported"]
 
 
